@@ -754,7 +754,44 @@ def r04_2(ctx: Ctx, only: set | None = None) -> None:
 _HEIGHTS = ("df.height", "len(df)", "df.shape[0]")
 
 
-def _row_offset(e: ast.AST, col: str, i: str, lp: ast.For, fn: ast.AST):
+def _pairwise_header(lp: ast.For, fn: ast.AST):
+    """`for i, (prev, cur) in enumerate(zip(R, R[1:]), start=1)` with R the list of all rows of df in order:
+    -> (i, {prev: row i-1, cur: row i}) as linear forms; None if the header is not of that shape"""
+    t, it = lp.target, lp.iter
+    if not (isinstance(t, ast.Tuple) and len(t.elts) == 2 and isinstance(t.elts[0], ast.Name) and isinstance(t.elts[1], ast.Tuple)
+            and len(t.elts[1].elts) == 2 and all(isinstance(x, ast.Name) for x in t.elts[1].elts)):
+        return None
+    if not (isinstance(it, ast.Call) and dotted(it.func) == "enumerate" and it.args):
+        return None
+    start = it.args[1] if len(it.args) > 1 else next((k.value for k in it.keywords if k.arg == "start"), None)
+    z = it.args[0]
+    if not (_const(start, 1) and isinstance(z, ast.Call) and dotted(z.func) == "zip" and len(z.args) == 2 and all(k.arg == "strict" for k in z.keywords)):
+        return None
+    a, b = z.args
+    if not (isinstance(a, ast.Name) and isinstance(b, ast.Subscript) and isinstance(b.value, ast.Name) and b.value.id == a.id and isinstance(b.slice, ast.Slice)
+            and _const(b.slice.lower, 1) and b.slice.upper is None and b.slice.step is None):
+        return None
+    rd = reaching_def(a.id, lp, fn)
+    if rd is None:
+        return None
+    rows = rd[0]
+    ok = False
+    if isinstance(rows, ast.ListComp) and len(rows.generators) == 1 and not rows.generators[0].ifs and isinstance(rows.generators[0].target, ast.Name):
+        g = rows.generators[0]
+        mm = match("range(_H)", g.iter)
+        el = rows.elt
+        ok = mm is not None and unparse(mm["_H"]) in _HEIGHTS and isinstance(el, ast.Call) and isinstance(el.func, ast.Attribute) and el.func.attr == "row" \
+            and unparse(el.func.value) == "df" and el.args and isinstance(el.args[0], ast.Name) and el.args[0].id == g.target.id
+    else:
+        r2 = strip_wrappers(rows, names=("list", "tuple"))
+        ok = isinstance(r2, ast.Call) and isinstance(r2.func, ast.Attribute) and r2.func.attr in ("to_dicts", "rows", "iter_rows") and unparse(r2.func.value) == "df"
+    if not ok:
+        return None
+    i = t.elts[0].id
+    return i, {t.elts[1].elts[0].id: {i: 1, "": -1}, t.elts[1].elts[1].id: {i: 1}}
+
+
+def _row_offset(e: ast.AST, col: str, i: str, lp: ast.For, fn: ast.AST, pre: dict | None = None):
     """`e` reads column `col` of some row: -> linear form of the row index in terms of the loop variable i,
     'carried' for the previous-row idiom (prev = row(lo-1) before the loop, prev = current at the end of the
     body), or None"""
@@ -766,6 +803,8 @@ def _row_offset(e: ast.AST, col: str, i: str, lp: ast.For, fn: ast.AST):
     if not (isinstance(e.slice, ast.Name) and e.slice.id == col):
         return None
     row = e.value
+    if pre and isinstance(row, ast.Name) and row.id in pre:
+        return dict(pre[row.id])
 
     def of_row_call(x):
         if isinstance(x, ast.Call) and isinstance(x.func, ast.Attribute) and x.func.attr == "row" and x.args:
@@ -883,8 +922,27 @@ def _change_flags(ctx: Ctx, c, grp: str, other: str, X: str, scope_fns: list) ->
             ctx.gap("R04.4", f"`{unparse(s)}` writes a {grp} group-start flag in an unrecognised way")
     for s, lp in loop_stores:
         i = s.targets[0].slice.id
+        # a plain store inside a loop over the grouping columns: every column overwrites what the previous one found
+        over_cols = None
+        for o in _anc(lp, fn):
+            if isinstance(o, ast.For):
+                it = o.iter
+                if isinstance(it, ast.BoolOp) and isinstance(it.op, ast.Or) and it.values:
+                    it = it.values[0]
+                it = strip_wrappers(resolve(it, fn))
+                if isinstance(it, ast.Name) and it.id == grp:
+                    over_cols = o
+        if over_cols is not None and not any(isinstance(n, ast.Name) and n.id == X for n in ast.walk(s.value)):
+            ctx.instance("R04.4", c.where(s), f"{grp} change flag `{unparse(s)[:70]}` written once per grouping column in `for {unparse(over_cols.target)} in {unparse(over_cols.iter)}`")
+            ctx.violation("R04.4", c.short, key, c.where(s),
+                          f"`{unparse(s)[:70]}` is executed once per column of {grp} and overwrites the flag the previous column wrote: only the last grouping column decides, "
+                          "a change in another column is not a group start")
+            continue
+        pair = _pairwise_header(lp, fn)
         m = match("range(1, _H)", lp.iter)
-        if not (isinstance(lp.target, ast.Name) and m is not None and unparse(m["_H"]) in _HEIGHTS):
+        if pair is not None and pair[0] == i:
+            pass
+        elif not (isinstance(lp.target, ast.Name) and m is not None and unparse(m["_H"]) in _HEIGHTS):
             ctx.gap("R04.4", f"the {grp} flags are written in `for {unparse(lp.target)} in {unparse(lp.iter)}`, not a pass over rows 1..height-1")
             continue
         odd = [a for a in sorted(guard_atoms(guards(s, fn))) if not _harmless_flag_guard(a, grp, other)]
@@ -962,7 +1020,8 @@ def _change_flags(ctx: Ctx, c, grp: str, other: str, X: str, scope_fns: list) ->
         if not (isinstance(cols_r, ast.Name) and cols_r.id == grp):
             ctx.violation("R04.4", c.short, key, c.where(cmp_), f"{grp} change detection iterates over `{unparse(cols)}`, not over every column of {grp}")
             continue
-        lo, ro = _row_offset(l, col, i, lp, fn), _row_offset(r, col, i, lp, fn)
+        pre = pair[1] if pair is not None else {}
+        lo, ro = _row_offset(l, col, i, lp, fn, pre), _row_offset(r, col, i, lp, fn, pre)
         if lo is None or ro is None:
             ctx.gap("R04.4", f"the rows compared by `{unparse(cmp_)}` could not be re-identified")
             continue
@@ -1174,11 +1233,38 @@ def _page_bound(e: ast.AST, fn: ast.AST, lp: ast.For):
     return None
 
 
+def _shortcut_pages(ctx: Ctx, fi, short: str) -> None:
+    """a strategy may not hand out pages it built without the row metadata: a return of PageContext objects that is reached
+    before calculate_row_metadata was called (and not only for an empty frame) skips the break analysis"""
+    fn = fi.node
+    body = fn.body
+    top_of = lambda n: next((i for i, s in enumerate(body) if _inside(n, s)), -1)     # noqa: E731
+    metas = [x for x in walk_no_nested(fn) if isinstance(x, ast.Call) and dotted(x.func).endswith("calculate_row_metadata")]
+    if len(metas) != 1:
+        return
+    m_idx = top_of(metas[0])
+    for r in [x for x in walk_no_nested(fn) if isinstance(x, ast.Return) and x.value is not None]:
+        if top_of(r) >= m_idx:
+            continue
+        val = resolve(r.value, fn)
+        builds = [x for x in ast.walk(val) if isinstance(x, ast.Call) and dotted(x.func).split(".")[-1] == "PageContext"]
+        ga = guard_atoms(guards(r, fn), fn)
+        ctx.instance("R04.5", fi.where(r), f"{short}: return `{unparse(r.value)[:60]}` under {sorted(ga) or 'no guard'} before the row metadata is computed")
+        if not builds:
+            continue
+        if ga & (_empty_tests("context.df") | _empty_tests("df")):
+            continue
+        ctx.violation("R04.5", short, "pages without row metadata " + " and ".join(sorted(ga))[:120], fi.where(r),
+                      f"{short} returns page(s) built from the whole frame under `{' and '.join(sorted(ga))}` without calling calculate_row_metadata: "
+                      "row heights are not consulted, so a break that is required by the row budget does not occur")
+
+
 def r04_5(ctx: Ctx) -> None:
     pm = ctx.pm
     for short in STRATS:
         fi = pm.func(short)
         fn = fi.node
+        _shortcut_pages(ctx, fi, short)
         sl = [c for c in walk_no_nested(fn) if isinstance(c, ast.Call) and isinstance(c.func, ast.Attribute) and c.func.attr == "slice"
               and unparse(c.func.value) == "context.df"]
         if len(sl) != 1:
